@@ -522,7 +522,7 @@ fn check_c22(h: &History, rec: &mut Rec) -> Result<(), String> {
 
 pub fn run_c22(ctx: &mut Ctx) {
     ctx.rule("cases = histories of 10..30 operations over six markets of one store (four long/short markets sharing both vaults, two single-token markets sharing one vault each) seeded with $500k per side: deposits (plain, paid through 1-2 hop swap paths), withdrawals (plain / swapped out), shifts, market swaps of 1-3 hops, increases (paid in either token, 1-49x), decreases (partial / full / with collateral withdrawal / swapped output), liquidation attempts, fee claims by the receiver, keeper market_transfer_in, price moves (-60..+60 %, spreads) and clock jumps; each action is cancelled by its owner, executed by the keeper (successfully or with an impossible min-output / acceptable price) and closed, or left pending; every instruction is the real gmsol_store entrypoint in svm-lite; oracle (after EVERY successful instruction, computed from the account bytes): per market and pool token recorded balance >= liquidity + swap-impact + claimable-fee pool amounts and >= total collateral, per vault sum of recorded balances of the markets using it <= SPL token account amount; non-trivial = at least two markets touched by executed actions and a multi-hop swap executed");
-    ctx.assume("svm-lite is not the Solana runtime (no compute/heap limits); custom price feeds are written through the verif hook price_feed_update instead of a signed Chainlink report; the first signer of an instruction is treated as the writable fee payer; GLV actions, ADL and virtual inventories are not part of the histories");
+    ctx.assume("svm-lite is not the Solana runtime (no compute/heap limits); custom price feeds are written through the verif hook price_feed_update instead of a signed Chainlink report; the first signer of an instruction is treated as the writable fee payer; GLV actions, GLV shifts, ADL, closed-state updates and market toggles are the search `solvency_glv`; virtual inventories are not configured");
     let n = ctx.cases(800, 40_000);
     ctx.search("solvency", n, history, check_c22);
     for (class, floor) in [("deposit_executed", 100), ("withdrawal_executed", 40), ("shift_executed", 20), ("multi_hop_swap_executed", 60), ("increase_executed", 100), ("decrease_executed", 30), ("liquidation_executed", 5), ("liquidation_rejected", 40), ("fees_claimed", 40), ("soft_cancelled", 60), ("owner_cancelled", 60), ("two_or_more_markets_touched", 200)] {
@@ -1073,7 +1073,7 @@ fn check_c23(c: &LifeCase, rec: &mut Rec) -> Result<(), String> {
 
 pub fn run_c23(ctx: &mut Ctx) {
     ctx.rule("cases = one action (deposit plain / through a swap path, withdrawal plain / swapped, shift, market swap 1-2 hops, market increase paid in either token, market decrease partial / full / swapped; optional unreachable min output or acceptable price; execution lamports 200000..2.2M, fee argument 0..3M) created by its owner in the seeded six-market world, followed by a script of 1..6 steps: execute by keeper / second keeper / owner / stranger with fresh prices, after the request expiration (throw flag off and on), with feeds older than the heartbeat, or with prices older than the action; close by owner / keeper / second keeper / stranger; a final owner close is appended. Oracle = model state machine Pending -> {Completed, Cancelled} -> Closed: an execution succeeds exactly when a keeper executes a Pending action with usable prices, moves it to Completed or Cancelled (Cancelled required for expired requests and unreachable minimum), pays exactly min(fee, execution lamports) to the executor, and a cancelled execution leaves every market image (pools, clocks, balances, counters, config), every vault and the escrow balances unchanged; any execution on a terminal or closed action fails; close succeeds for the owner in any live state, for keepers only in terminal states (PermissionDenied otherwise), never for a stranger; after the close the action and all escrow accounts are gone, no third-party token account changed, a pending/cancelled action returns exactly the pre-creation wallet balances, a completed one conserves tokens between the owner and store-held accounts per mint (market tokens against mint supply), keepers gained exactly their fees, the stranger nothing, and the owner lost exactly fees + lamports left in accounts created for the action; non-trivial = scripts of at least two steps");
-    ctx.assume("svm-lite commits state only on success, so 'failed instruction leaves all accounts unchanged' is guaranteed by the runtime model (as on chain) and not separately observable; market accounts are compared through their public image (the raw bytes include the revertible buffer and revision counters, which change on every committed operation); GLV actions are not covered; for decrease orders the owner lamport equation is skipped (position and claimable accounts are funded outside the ledger)");
+    ctx.assume("svm-lite commits state only on success, so 'failed instruction leaves all accounts unchanged' is guaranteed by the runtime model (as on chain) and not separately observable; market accounts are compared through their public image (the raw bytes include the revertible buffer and revision counters, which change on every committed operation); GLV deposits / withdrawals / shifts are the search `lifecycle_glv`, the owner lamport equation of decrease orders is the search `lifecycle_decrease`");
     let n = ctx.cases(3_600, 180_000);
     ctx.search("lifecycle", n, life_case, check_c23);
     for (class, floor) in [("deposit", 200), ("withdrawal", 200), ("shift", 200), ("swap_order", 400), ("increase_order", 400), ("decrease_order", 150), ("completed", 400), ("soft_failure_expired", 100), ("soft_failure_min_output", 150), ("soft_failure_adverse_price", 60), ("re_execution_of_cancelled_rejected", 80), ("re_execution_after_transient_failure_rejected", 10), ("hard_failure", 150), ("re_execution_rejected", 150), ("execution_by_non_keeper_rejected", 150), ("stranger_close_rejected", 200), ("keeper_close_of_pending_rejected", 150), ("pending_closed_by_owner", 200), ("cancelled_closed_by_owner", 60), ("cancelled_closed_by_keeper", 60), ("completed_closed_by_owner", 150), ("completed_closed_by_keeper", 150)] {
